@@ -49,6 +49,14 @@ def run(ctx: Ctx) -> None:
                         "the redirect record only after comparing the recorded key with the new one")
     n11 = S.record_rewritten_unless_current(ctx, "C08.R11")
     rep.floor("C08.R11", n11, 1)
+    rep.rule("C08.R12", "paths that differ in their non-empty segments never share a location in the DBFS store either: '.' / '..' segments and the reserved directory of the "
+                        "redirections are refused before any location is built")
+    n12 = S.dbfs_paths_validated(ctx, "C08.R12")
+    rep.floor("C08.R12", n12, 2)
+    rep.rule("C08.R13", "a path has one spelling: DDSPathUtils.create drops (or refuses) empty segments, so that the stores - which place a path by its non-empty segments "
+                        "(local, DBFS) or by its text (memory) - agree on which paths are the same")
+    n13 = S.one_spelling_per_path(ctx, "C08.R13")
+    rep.floor("C08.R13", n13, 1)
     rep.rule("C08.R5", "store_blob returns normally only after the commit marker is published (a stored key is reported present)")
     S.store_always_publishes(ctx, v, "C08.R5")
     rep.rule("C08.R6", "committing a path removes / replaces nothing but that path's own entry; the cache wrapper answers path queries from the store")
